@@ -52,6 +52,19 @@ def replay_wrapper(inputs, obl):
             pass
         except Exception as e:
             problems.append(f"wrong arity raised {type(e).__name__}")
+    # Python lists passed through the wrapper are the Klong lists they denote
+    from klongpy.core import kg_write
+    k2 = KlongInterpreter()
+    k2('jn::{,/x};cnt::{#x};fst::{x@0};two::{(x@0),,x@1}')
+    for nm, py, kl in (('jn', ['ab', 'cd'], '["ab" "cd"]'), ('cnt', [[1, 2], [3]], '[[1 2] [3]]'), ('fst', [1, 'a'], '[1 "a"]'), ('two', [1, 'a'], '[1 "a"]'),
+                       ('cnt', [1, 2, 3], '[1 2 3]'), ('fst', [[1, 2], [3, 4]], '[[1 2] [3 4]]'), ('jn', [[1], [2, 3]], '[[1] [2 3]]')):
+        try:
+            got = kg_write(k2[nm](py), k2._backend)
+        except Exception as e:
+            got = 'raises ' + type(e).__name__
+        want = kg_write(k2(f"{nm}({kl})"), k2._backend)
+        if got != want:
+            problems.append(f"klong['{nm}']({py!r}) gives {got}, the Klong call {nm}({kl}) gives {want}")
     k('f::{x*y}')
     if w(3, 4) != 12:
         problems.append("wrapper did not follow the redefinition of f")
